@@ -272,7 +272,7 @@ func relayout(rt *rapid.T, tmpl, payload string, cond bool) string {
 
 func TestScanContextClosed(t *testing.T) {
 	hx.Rule("scan_context_closed", "documented payloads (3 tautologies, 6 time-delay/dangerous calls, 4 UNION probes) x condition/expression positions of the grammar (34 for conditions/calls, 6 for UNION probes, nesting depth up to 2) x layouts (whitespace, keyword/function letter case, redundant parentheses) x 4 severity thresholds; the class/severity reported for the payload as top-level WHERE condition must be reported at every position and layout; thresholds filter exactly; counts equal the list; the tree is not mutated; A,B,A scans agree; non-trivial = position is not the base and nesting depth >= 1; distinct = payload x position x layout hash")
-	scanCheck.Rapid(t, hx.N(3000, 100000), func(rt *rapid.T) ScanCase {
+	scanCheck.Rapid(t, hx.N(60000, 600000), func(rt *rapid.T) ScanCase {
 		p := rapid.SampledFrom(payloads).Draw(rt, "payload")
 		var c ScanCase
 		depth := 0
@@ -405,7 +405,7 @@ var textCheck = hx.NewCheck("scansql_layout_invariant", oracleText)
 
 func TestScanSQLLayoutInvariant(t *testing.T) {
 	hx.Rule("scansql_layout_invariant", "same payload/position catalogue through the text scanner ScanSQL: canonical layout vs other whitespace and letter case (no comments, no added parentheses) must give the same (pattern, severity) set at all four thresholds, counts equal the list, thresholds filter exactly; non-trivial = layouts differ; distinct = payload x position x layout hash")
-	textCheck.Rapid(t, hx.N(2000, 60000), func(rt *rapid.T) TextCase {
+	textCheck.Rapid(t, hx.N(40000, 400000), func(rt *rapid.T) TextCase {
 		p := rapid.SampledFrom(payloads).Draw(rt, "payload")
 		var tmpl string
 		if p.Kind == "union" {
